@@ -200,9 +200,15 @@ func GenC04(seed uint64) *Scenario {
 	if r.Chance(1, 2) {
 		q = genReq(r, b, b.pkg, b.pkg.Output, 0)
 	}
+	if q.Stop < uint64(q.Start)+4 {
+		q.Stop = uint64(q.Start) + 4 + uint64(r.Intn(int(b.seg)))
+	}
 	// most of the range final so that final cursors exist
-	if q.Final != 0 && q.Final < q.Stop && r.Chance(2, 3) {
+	if q.Final < q.Stop && r.Chance(3, 4) {
 		q.Final = q.Stop + uint64(r.Intn(int(b.seg)))
+	}
+	if r.Chance(1, 5) {
+		q.FinalOnly = true
 	}
 	first := HistItem{Req: q}
 	switch r.Intn(4) {
